@@ -240,8 +240,16 @@ def run_property(pid, tier, seed):
             rule=mod.RULE, exhaustive=getattr(mod, "EXHAUSTIVE", False),
             vm_compute_cross_checked=cov["evaluations"], proof_files=per,
             theorems=list(mod.THEOREMS)))
-        if tier == "thorough" and hasattr(mod, "thorough_extra"):
-            cov["thorough_extra"] = mod.thorough_extra(work)
+        if tier == "thorough":
+            chk = C.coqchk_cached(["Properties"])
+            cov["coqchk"] = chk
+            if not chk["ok"] and not violations:
+                nrep += 1
+                path = write_replay(pid, seed, nrep, dict(property=pid, kind="no-failing-input-found",
+                                    what="coqchk rejects the compiled development", detail=chk))
+                violations.append((path, True))
+            if hasattr(mod, "thorough_extra"):
+                cov["thorough_extra"] = mod.thorough_extra(work)
         ev_obj = dict(property_id=pid, tier=tier, seed=seed, level="proof", coverage=cov,
                       assumptions=mod.ASSUMPTIONS, wall_s=round(wall, 2), violations=len(violations))
         os.makedirs(C.EVIDENCE, exist_ok=True)
